@@ -47,7 +47,7 @@ pub enum AeronCommand {
     ResponseOnExclusivePublicationReady = 0xF06,
     ResponseOnSubscriptionReady = 0xF07,
     ResponseOnCounterReady = 0xF08,
-    ResponseOnUnavailableCounter = 0xF9,
+    ResponseOnUnavailableCounter = 0xF09,
     ResponseOnClientTimeout = 0xF0A,
 
     #[cfg(test)]
